@@ -43,3 +43,165 @@ package vm
 //@   ensures ok ==> ranged(*g)
 //@   modifies *g
 //@   nowrap
+
+//@ func (g *GasBudget) Charge(cost GasCosts) (prior GasBudget, ok bool)
+//@   serves C31
+//@   requires ranged(*g)
+//@   ensures prior == old(*g)
+//@   ensures ok == canAfford(old(*g), cost)
+//@   ensures !ok ==> *g == old(*g)
+//@   ensures ok ==> K1(*g) == K1(old(*g)) && K2(*g) == K2(old(*g)) && ranged(*g)
+//@   ensures ok ==> g.ExecutionGas + g.StateGas + cost.ExecutionGas + cost.StateGas == old(g.ExecutionGas) + old(g.StateGas)
+//@   ensures ok ==> g.UsedExecutionGas == old(g.UsedExecutionGas) + cost.ExecutionGas && g.UsedStateGas == old(g.UsedStateGas) + cost.StateGas
+//@   ensures ok ==> g.Spilled == old(g.Spilled) + ite(cost.StateGas > old(g.StateGas), cost.StateGas - old(g.StateGas), 0)
+//@   ensures ok ==> g.StateGas == ite(cost.StateGas > old(g.StateGas), 0, old(g.StateGas) - cost.StateGas)
+//@   modifies *g
+//@   nowrap
+
+//@ func (g *GasBudget) ChargeExecutionOnly(r uint64) (ok bool)
+//@   serves C31
+//@   requires ranged(*g)
+//@   ensures ok == (old(g.ExecutionGas) >= r)
+//@   ensures !ok ==> *g == old(*g)
+//@   ensures ok ==> g.ExecutionGas == old(g.ExecutionGas) - r && g.UsedExecutionGas == old(g.UsedExecutionGas) + r
+//@   ensures g.StateGas == old(g.StateGas) && g.UsedStateGas == old(g.UsedStateGas) && g.Spilled == old(g.Spilled)
+//@   ensures K1(*g) == K1(old(*g)) && K2(*g) == K2(old(*g)) && ranged(*g)
+//@   modifies *g
+//@   nowrap
+
+//@ func (g *GasBudget) ChargeExecution(r uint64) (prior GasBudget, ok bool)
+//@   serves C31
+//@   requires ranged(*g)
+//@   ensures prior == old(*g)
+//@   ensures ok == (old(g.ExecutionGas) >= r)
+//@   ensures !ok ==> *g == old(*g)
+//@   ensures ok ==> g.ExecutionGas == old(g.ExecutionGas) - r && g.UsedExecutionGas == old(g.UsedExecutionGas) + r
+//@   ensures ok ==> g.StateGas == old(g.StateGas) && g.UsedStateGas == old(g.UsedStateGas) && g.Spilled == old(g.Spilled)
+//@   ensures K1(*g) == K1(old(*g)) && K2(*g) == K2(old(*g)) && ranged(*g)
+//@   modifies *g
+//@   nowrap
+
+//@ func (g *GasBudget) ChargeState(s uint64) (prior GasBudget, ok bool)
+//@   serves C31
+//@   requires ranged(*g)
+//@   ensures prior == old(*g)
+//@   ensures ok == (s <= old(g.StateGas) || s - old(g.StateGas) <= old(g.ExecutionGas))
+//@   ensures !ok ==> *g == old(*g)
+//@   ensures ok ==> g.ExecutionGas + g.StateGas + s == old(g.ExecutionGas) + old(g.StateGas)
+//@   ensures ok ==> g.UsedExecutionGas == old(g.UsedExecutionGas) && g.UsedStateGas == old(g.UsedStateGas) + s
+//@   ensures K1(*g) == K1(old(*g)) && K2(*g) == K2(old(*g)) && ranged(*g)
+//@   modifies *g
+//@   nowrap
+
+// RefundState: the refund returns state gas charged earlier in the same transaction, so
+// the reservoir cannot grow beyond the budget bound (caller obligation).
+//@ func (g *GasBudget) RefundState(s uint64)
+//@   serves C31
+//@   requires ranged(*g) && g.StateGas + s <= TMAX()
+//@   ensures K1(*g) == K1(old(*g)) && K2(*g) == K2(old(*g)) && ranged(*g)
+//@   ensures g.ExecutionGas + g.StateGas == old(g.ExecutionGas) + old(g.StateGas) + s
+//@   ensures g.Spilled == old(g.Spilled) - min(s, old(g.Spilled))
+//@   ensures g.ExecutionGas == old(g.ExecutionGas) + min(s, old(g.Spilled))
+//@   ensures g.UsedStateGas == old(g.UsedStateGas) - s && g.UsedExecutionGas == old(g.UsedExecutionGas)
+//@   modifies *g
+//@   nowrap
+
+//@ func (g *GasBudget) DrainExecution()
+//@   serves C31
+//@   requires ranged(*g)
+//@   ensures g.ExecutionGas == 0 && g.UsedExecutionGas == old(g.UsedExecutionGas) + old(g.ExecutionGas)
+//@   ensures g.StateGas == old(g.StateGas) && g.UsedStateGas == old(g.UsedStateGas) && g.Spilled == old(g.Spilled)
+//@   ensures K1(*g) == K1(old(*g)) && K2(*g) == K2(old(*g)) && ranged(*g)
+//@   modifies *g
+//@   nowrap
+
+// Forward: the parent lends its whole reservoir to the child. Afterwards
+//   K1(parent) is unchanged, K2(parent) dropped by exactly the lent reservoir,
+//   and the child starts with K1(child) == execution, K2(child) == lent reservoir.
+//@ func (g *GasBudget) Forward(execution uint64) (child GasBudget)
+//@   serves C31
+//@   requires ranged(*g) && execution <= g.ExecutionGas
+//@   ensures child.ExecutionGas == execution && child.StateGas == old(g.StateGas)
+//@   ensures child.UsedExecutionGas == 0 && child.UsedStateGas == 0 && child.Spilled == 0
+//@   ensures g.ExecutionGas == old(g.ExecutionGas) - execution && g.UsedExecutionGas == old(g.UsedExecutionGas) + execution
+//@   ensures g.StateGas == 0 && g.UsedStateGas == old(g.UsedStateGas) && g.Spilled == old(g.Spilled)
+//@   ensures K1(*g) == K1(old(*g)) && K2(*g) + old(g.StateGas) == K2(old(*g))
+//@   ensures K1(child) == execution && K2(child) == old(g.StateGas) && ranged(child)
+//@   modifies *g
+//@   nowrap
+
+//@ func (g *GasBudget) ForwardAll() (child GasBudget)
+//@   serves C31
+//@   requires ranged(*g)
+//@   ensures child.ExecutionGas == old(g.ExecutionGas) && child.StateGas == old(g.StateGas)
+//@   ensures child.UsedExecutionGas == 0 && child.UsedStateGas == 0 && child.Spilled == 0
+//@   ensures g.ExecutionGas == 0 && g.UsedExecutionGas == old(g.UsedExecutionGas) + old(g.ExecutionGas)
+//@   ensures g.StateGas == 0 && g.UsedStateGas == old(g.UsedStateGas) && g.Spilled == old(g.Spilled)
+//@   ensures K1(*g) == K1(old(*g)) && K2(*g) + old(g.StateGas) == K2(old(*g))
+//@   ensures K1(child) == old(g.ExecutionGas) && K2(child) == old(g.StateGas) && ranged(child)
+//@   modifies *g
+//@   nowrap
+
+//@ func (g GasBudget) ExitSuccess() (result GasBudget)
+//@   serves C31
+//@   ensures result == g
+
+// A reverted frame hands back the reservoir it started with (K2) and its unspent
+// execution gas including what it had borrowed for state gas.
+//@ func (g GasBudget) ExitRevert() (result GasBudget)
+//@   serves C31
+//@   requires ranged(g)
+//@   ensures result.StateGas == K2(g)
+//@   ensures result.ExecutionGas == g.ExecutionGas + g.Spilled
+//@   ensures result.UsedExecutionGas == g.UsedExecutionGas && result.UsedStateGas == 0 && result.Spilled == 0
+//@   ensures K1(result) == K1(g) && K2(result) == K2(g)
+//@   nowrap
+
+// A halted frame hands back its initial reservoir (K2) and no execution gas.
+//@ func (g GasBudget) ExitHalt() (result GasBudget)
+//@   serves C31
+//@   requires ranged(g)
+//@   ensures result.StateGas == K2(g)
+//@   ensures result.ExecutionGas == 0
+//@   ensures result.UsedExecutionGas == K1(g) && result.UsedStateGas == 0 && result.Spilled == 0
+//@   ensures K1(result) == K1(g) && K2(result) == K2(g)
+//@   nowrap
+
+//@ func (g GasBudget) Exit(err error) (result GasBudget)
+//@   serves C31
+//@   requires ranged(g)
+//@   ensures err == nil ==> result == g
+//@   ensures err != nil ==> result.StateGas == K2(g) && result.UsedStateGas == 0 && result.Spilled == 0
+//@   ensures err == ErrExecutionReverted ==> result.ExecutionGas == g.ExecutionGas + g.Spilled && result.UsedExecutionGas == g.UsedExecutionGas
+//@   ensures err != nil && err != ErrExecutionReverted ==> result.ExecutionGas == 0 && result.UsedExecutionGas == K1(g)
+//@   ensures K1(result) == K1(g) && K2(result) == K2(g)
+//@   nowrap
+
+// Absorb: the child's leftover is merged back. fwd is what Forward added to the
+// parent's UsedExecutionGas for this child, i.e. K1(child) <= g.UsedExecutionGas.
+//@ func (g *GasBudget) Absorb(child GasBudget)
+//@   serves C31
+//@   requires g.StateGas == 0
+//@   requires K1(child) <= g.UsedExecutionGas
+//@   requires K1(*g) <= TMAX() && 0 <= K2(*g) + K2(child) && K2(*g) + K2(child) <= TMAX() && child.StateGas <= TMAX()
+//@   requires 0 - TMAX() <= g.UsedStateGas && g.UsedStateGas <= 2*TMAX() && 0 - TMAX() <= child.UsedStateGas && child.UsedStateGas <= 2*TMAX()
+//@   ensures K1(*g) == K1(old(*g))
+//@   ensures K2(*g) == K2(old(*g)) + K2(child)
+//@   ensures g.ExecutionGas == old(g.ExecutionGas) + child.ExecutionGas && g.StateGas == child.StateGas
+//@   ensures g.UsedExecutionGas == old(g.UsedExecutionGas) - child.ExecutionGas - child.Spilled
+//@   ensures g.UsedStateGas == old(g.UsedStateGas) + child.UsedStateGas && g.Spilled == old(g.Spilled) + child.Spilled
+//@   ensures ranged(*g)
+//@   modifies *g
+//@   nowrap
+
+//@ func (g GasBudget) Used(initial GasBudget) (used uint64)
+//@   serves C31
+//@   requires g.ExecutionGas + g.StateGas <= initial.ExecutionGas + initial.StateGas
+//@   requires initial.ExecutionGas + initial.StateGas <= 2*TMAX()
+//@   ensures used == initial.ExecutionGas + initial.StateGas - g.ExecutionGas - g.StateGas
+//@   ensures used <= initial.ExecutionGas + initial.StateGas
+//@   nowrap
+
+//@ func (g *GasBudget) IsZero() (z bool)
+//@   serves C31
+//@   ensures z == (g.ExecutionGas == 0 && g.StateGas == 0)
